@@ -360,13 +360,13 @@ theorem diskIndex_congr2 (F1 F2 : FS) (hp : pickIdx F1 = pickIdx F2) (hl : F1.lo
   unfold diskIndex snapBase logEntries
   rw [hp, hl, hv]
 
-/-- NewDBExt (non-volatile, LoadData) on a readable directory with a well-formed log satisfies the invariants -/
-theorem open_inv3 (F : FS) (opts : Opts) (E : List LogEntry) (hE : ∀ e ∈ E, EntryFits e)
+/-- the invariants follow from what `NewDBidx` leaves (`OpenState`) once the records are loaded; stated for any
+    state `X` so that it also applies when `NewDBidx` discarded the log (then `F` is the directory without it) -/
+theorem inv3_of_openState (F : FS) (X : DB) (S : OpenState F X) (E : List LogEntry) (hE : ∀ e ∈ E, EntryFits e)
     (hlog : LogState F (snapVer F) E) (hsv : snapVer F < 2^32) (hR : DirReadable F)
-    (hmax : (openIndex { fs := F, volatile := false, opts := opts }).maxSeq + 1 < 2^32) :
-    Inv3 (openDB F false true opts) := by
-  have S := open_state F opts E hE hlog hsv
-  generalize hX : openIndex { fs := F, volatile := false, opts := opts } = X at S hmax
+    (hmax : X.maxSeq + 1 < 2^32) :
+    loadAll X = { X with index := mapV (loadedRec X.fs) (diskIndex F) } ∧
+    Inv3 { X with index := mapV (loadedRec X.fs) (diskIndex F), dataSeq := u32 (X.maxSeq + 1) } := by
   have hfold := loadFold_general (diskIndex F) X S.failed (by
     intro kr hkr
     obtain ⟨h1, f, v, h3, h4⟩ := hR kr hkr
@@ -375,14 +375,9 @@ theorem open_inv3 (F : FS) (opts : Opts) (E : List LogEntry) (hE : ∀ e ∈ E, 
     unfold loadAll
     rw [S.index, hfold]
     simp only [S.failed, List.nil_append]
-  have hopen : openDB F false true opts =
-      { X with index := mapV (loadedRec X.fs) (diskIndex F), dataSeq := u32 (X.maxSeq + 1) } := by
-    unfold openDB
-    simp only [↓reduceIte]
-    rw [hX, hload]
+  refine ⟨hload, ?_⟩
   have hds : u32 (X.maxSeq + 1) = X.maxSeq + 1 := Nat.mod_eq_of_lt hmax
   obtain ⟨hDX, hSV⟩ := diskIndex_congr2 X.fs F S.pick S.log
-  rw [hopen]
   -- records after loading
   have hloaded : ∀ kr ∈ diskIndex F, ∃ f, dlookup kr.2.seq X.fs.dats = some f ∧
       ReadsBack f kr.2 ((loadedRec X.fs kr.2).data.getD []) ∧ hasFlag kr.2.flags NO_CACHE = false := by
@@ -479,5 +474,22 @@ theorem open_inv3 (F : FS) (opts : Opts) (E : List LogEntry) (hE : ∀ e ∈ E, 
       show kr.2.seq ≤ u32 (X.maxSeq + 1)
       have := S.maxSeq kr hk
       rw [hds]; omega
+
+/-- NewDBExt (non-volatile, LoadData) on a readable directory with a well-formed log satisfies the invariants -/
+theorem open_inv3 (F : FS) (opts : Opts) (E : List LogEntry) (hE : ∀ e ∈ E, EntryFits e)
+    (hlog : LogState F (snapVer F) E) (hsv : snapVer F < 2^32) (hR : DirReadable F)
+    (hmax : (openIndex { fs := F, volatile := false, opts := opts }).maxSeq + 1 < 2^32) :
+    Inv3 (openDB F false true opts) := by
+  have S := open_state F opts E hE hlog hsv
+  obtain ⟨hload, h3⟩ := inv3_of_openState F _ S E hE hlog hsv hR hmax
+  have hopen : openDB F false true opts =
+      { openIndex { fs := F, volatile := false, opts := opts } with
+        index := mapV (loadedRec (openIndex { fs := F, volatile := false, opts := opts }).fs) (diskIndex F),
+        dataSeq := u32 ((openIndex { fs := F, volatile := false, opts := opts }).maxSeq + 1) } := by
+    unfold openDB
+    simp only [↓reduceIte]
+    rw [hload]
+  rw [hopen]
+  exact h3
 
 end GocoinV.Proofs.C19
